@@ -53,7 +53,7 @@ func cmpGo(n *jnode, x any, path string) string {
 			return fmt.Sprintf("%s: go has %T want array of %d", path, x, len(n.arr))
 		}
 		for i := range a {
-			if d := cmpGo(n.arr[i], a[i], fmt.Sprintf("%s[%d]", path, i)); d != "" {
+			if d := cmpGo(n.arr[i], a[i], pIdx(path, i)); d != "" {
 				return d
 			}
 		}
@@ -68,7 +68,7 @@ func cmpGo(n *jnode, x any, path string) string {
 			if !ok {
 				return fmt.Sprintf("%s: go lacks key %q", path, k)
 			}
-			if d := cmpGo(vals[i], v, fmt.Sprintf("%s{%q}", path, k)); d != "" {
+			if d := cmpGo(vals[i], v, pKey(path, k)); d != "" {
 				return d
 			}
 		}
